@@ -53,6 +53,10 @@ RETURNS = {
     "kmeans:KMeansMachine.get_variances_and_weights_for_each_cluster": "tuple:U2 [C,D]|1 [C]",
 }
 
-PARAMS = {}
+PARAMS = {
+    # sizes a constructor is given: which axis each one counts (checked at every construction site: COUNT.args)
+    "gmm:GMMStats.__init__.n_gaussians": "count:C", "gmm:GMMStats.__init__.n_features": "count:D",
+    "ivector:IVectorStats.__init__.dim_c": "count:C", "ivector:IVectorStats.__init__.dim_d": "count:D", "ivector:IVectorStats.__init__.dim_t": "count:T",
+}
 
 DECLS = {"attrs": ATTRS, "returns": RETURNS, "params": PARAMS}
